@@ -27,6 +27,7 @@ Init == tr = <<>>
 Next == \E d \in Deltas, m \in Alphabet : Len(tr) < MaxEvents /\ tr' = Append(tr, [d |-> d, m |-> m])
 
 Src(t, cd) == [div |-> Div, track |-> CvClose(t, cd)]
+SrcOpen(t) == [div |-> Div, track |-> t]          \* the same track never closed
 Orders(src) == SetToSeqs(CvChannels(CvItems(src.track)))
 
 \* ---- mutants: wrong conversions -------------------------------------------------------------------------
@@ -77,6 +78,16 @@ Satisfiable ==
     /\ \A e \in {<<1, 0>>, <<cd + 3, 2>>} : ConvertOk(src, CvConvert(src, Sorted(src), e[1], e[2]))
     \* an empty first track may be left out when there is nothing for it
     /\ (CvOthers(CvItems(src.track)) = <<>> /\ tr # <<>>) => ConvertOk(src, [d0 EXCEPT !.tracks = Tail(d0.tracks)])
+
+\* a source that was never closed converts like the closed one (whose terminator is not a message), and a result
+\* whose first track stays unterminated -- nothing was there to put on it -- is rejected
+SatisfiableOpen ==
+  LET src == SrcOpen(tr)
+      d0 == CvConvert(src, Sorted(Src(tr, 0)), 0, 0) IN
+  /\ CvInDomain(src)
+  /\ d0 = CvConvert(Src(tr, 0), Sorted(Src(tr, 0)), 0, 0)
+  /\ ConvertOk(src, d0)
+  /\ ~ConvertOk(src, [d0 EXCEPT !.tracks[1] = SubSeq(d0.tracks[1], 1, Len(d0.tracks[1]) - 1)])
 
 Rejects(src, good, mutant) == mutant # good => ~ConvertOk(src, mutant)
 Sensitive ==
